@@ -9,7 +9,7 @@
    about an input class where the current code deviates (coincident samples). *)
 From Coq Require Import List ZArith QArith Qcanon Floats Permutation.
 From TK Require Import Mat_Sums Mat_Qc Knn_Spec Tsne_Model Tsne_Vp_Model Tsne_Sym_Model Tsne_Spec
-  Tsne_Proof_Dense Tsne_Proof_Perp Tsne_Proof_K Tsne_Proof_Vp Tsne_Proof_Sym Tsne_Proof_Sym2 Tsne_Proof_SymSpec Tsne_Proof_Csr Tsne_BH_Model Tsne_Proof_BH.
+  Tsne_Proof_Dense Tsne_Proof_KL Tsne_Proof_Perp Tsne_Proof_K Tsne_Proof_Vp Tsne_Proof_Sym Tsne_Proof_Sym2 Tsne_Proof_SymSpec Tsne_Proof_Csr Tsne_BH_Model Tsne_Proof_BH.
 From TK Require QuadTree_Model QuadTree_Spec QuadTree_SpecExec QuadTree_Proof_Gradient QuadTree_Proof_Final.
 Import ListNotations.
 
@@ -58,6 +58,30 @@ Theorem exact_gradient_closed_form_partial : forall N D (P Y : @buf Qc) n d,
   exact_grad_fixed N D P Y n d = grad_spec N D P Y n d.
 Proof. exact (@exact_gradient_closed_form_thm Qc _ _). Qed.
 Print Assumptions exact_gradient_closed_form_partial.
+
+(* the algebraic half of that derivation, for every field: with the FORMAL derivative
+     dC = sum_{k<>l} p_kl (dZ/Z - dw_kl/w_kl),  dZ = sum_{k<>l} dw_kl,
+     dw_kl = -2 w_kl^2 (y_kd - y_ld)(delta_kn - delta_ln)
+   (what d log u = du/u and the derivative of 1/(1+|y_k-y_l|^2) give for
+   C = sum_{k<>l} p_kl (log p_kl - log w_kl + log Z)), symmetric P with sum_{k<>l} p_kl = 1:
+   dC = 4 * closed form.  Only those two analytic facts remain outside Coq. *)
+Theorem kl_formal_derivative : forall (N D : nat) (P Y : @buf Qc) (n d : nat),
+  (n < N)%nat ->
+  (forall k l, (k < N)%nat -> (l < N)%nat -> P k l = P l k) ->
+  offd N P = 1%F ->
+  (forall k l, (k < N)%nat -> (l < N)%nat -> w_t D Y k l <> 0%F) ->
+  Z_t N D Y <> 0%F ->
+  dC N D P Y n d = ((two * two) * grad_spec N D P Y n d)%F.
+Proof. exact kl_formal_derivative_Qc. Qed.
+Print Assumptions kl_formal_derivative.
+
+Example kl_formal_derivative_nonvacuous :
+  (0 < 3)%nat /\
+  (forall k l, (k < 3)%nat -> (l < 3)%nat -> wP k l = wP l k) /\
+  offd 3 wP = 1%Qc /\
+  (forall k l, (k < 3)%nat -> (l < 3)%nat -> w_t 1 wY k l <> 0%Qc) /\
+  Z_t 3 1 wY <> 0%Qc.
+Proof. exact kl_formal_derivative_nonvacuous_ex. Qed.
 
 Theorem exact_gradient_refuted :
   exists (N D : nat) (P Y : @buf Qc) (n d : nat),
